@@ -43,7 +43,7 @@ class SeqSuite(Suite):
         v = 100
         for o in ops:
             if o == "push":
-                if kind == "q":
+                if kind.split()[0] == "q":
                     lines.append("push %d" % v)
                     v += 1
                 else:
@@ -66,6 +66,15 @@ class SeqSuite(Suite):
             for n in range(1, ln + 1):
                 for ops in itertools.product(alpha, repeat=n):
                     cases.append(self._mk(kind, ops))
+        # 1a. the other configurations of queue<T, Queue, CoroQueue, Lock>: primitives::no_lock (single-threaded use is its
+        #     contract) and primitives::single_item_queue as item store (s1) / as store of the parked promises (w1)
+        cfg_alpha = ["push", "pop", "cons 2", "cbcons 2", "upop 3", "pushthrow", "size"]
+        ln_c = 4 if tier == "quick" else 6
+        for kind in ("q s1w1", "q s1", "q w1", "q nl", "q w1m", "vq w1", "vq nl"):
+            alpha = [o for o in cfg_alpha if not (kind.startswith("vq") and o == "pushthrow")]
+            for n in range(1, (ln_c if kind in ("q s1w1", "q s1", "q w1", "vq w1") else ln_c - 1) + 1):
+                for ops in itertools.product(alpha, repeat=n):
+                    cases.append(self._mk(kind, ops))
         # 1b. a push whose item constructor throws, with and without pops waiting
         for n in range(1, 5 if tier == "quick" else 7):
             for ops in itertools.product(["pushthrow", "push", "pop", "cons 2", "upop 3"], repeat=n):
@@ -75,12 +84,14 @@ class SeqSuite(Suite):
         n = 2500 if tier == "quick" else 60000
         for i in range(n):
             kind = "q" if rng.random() < 0.7 else "vq"
+            if i % 3 == 1:
+                kind += " " + (rng.choice(["nl", "s1", "w1", "s1w1", "w1m"]) if kind == "q" else rng.choice(["nl", "w1"]))
             nops = rng.randint(3, 14) if rng.random() < 0.3 else rng.randint(10, 50)
             bias = rng.choice([0.3, 0.5, 0.7])
-            # callback consumers only in one case out of 16: if the queue ever resolved a promise under its lock every
-            # such case would deadlock (and cost the harness's alarm time)
-            cons_kinds = ["cons", "cbcons"] if i % 16 == 0 else ["cons"]
-            throwing = kind == "q" and i % 2 == 0
+            # callback consumers re-enter the queue from inside the resolving call; if the queue ever resolved a promise
+            # under its lock the harness notices at once (it probes the lock before re-entering) instead of deadlocking
+            cons_kinds = ["cons", "cbcons"] if i % 2 == 0 else ["cons"]
+            throwing = kind.split()[0] == "q" and i % 2 == 0
             ops = []
             for k in range(nops):
                 if rng.random() < 0.15:
@@ -112,20 +123,23 @@ class SeqSuite(Suite):
         return parked and value
 
     def stats(self, cases, outs):
-        ops, kinds = {}, {}
+        ops, kinds, refused = {}, {}, {}
         parked = delivered = unblocked = canceled = 0
         for c in cases:
-            k = c["lines"][0].split()[2]
+            k = " ".join(c["lines"][0].split()[2:])
             kinds[k] = kinds.get(k, 0) + 1
             for l in c["lines"][1:-1]:
                 w = l.split()[0]
                 ops[w] = ops.get(w, 0) + 1
             for l in outs.get(str(c["id"]), []):
+                if l.split(" ;")[0].endswith(" full"):
+                    refused[l.split()[0]] = refused.get(l.split()[0], 0) + 1
                 parked += l.count("+") + (1 if l.startswith("pop#") and l.split()[1] == "pending" else 0)
                 delivered += l.count("=v:") + l.count("=ok") + (1 if re.match(r"pop#\d+ (v:|ok)", l) else 0)
                 unblocked += l.count("=exc:")
                 canceled += l.count("=canceled")
-        return {"kinds": kinds, "ops": ops, "pops_parked": parked, "pops_resolved_with_value": delivered,
+        return {"configurations": kinds, "refused_by_a_full_single_item_queue": refused, "ops": ops, "pops_parked": parked,
+                "pops_resolved_with_value": delivered,
                 "pops_unblocked": unblocked, "pops_canceled": canceled}
 
     # ---- the property, evaluated on the implementation's trace -------------------------------
@@ -136,6 +150,9 @@ class SeqSuite(Suite):
         if kind not in ("q", "vq"):
             return msgs
         void = kind == "vq"
+        cfg = hdr[3] if len(hdr) > 3 else ""
+        item_cap = 1 if cfg.startswith("s1") else None          # Queue = single_item_queue
+        wait_cap = 1 if "w1" in cfg else None                   # CoroQueue = single_item_queue
         ops = case["lines"][1:]
         pushed = []          # values pushed, in order (queue<void>: a running number)
         given = 0            # number of items handed to pops so far
@@ -188,6 +205,22 @@ class SeqSuite(Suite):
                         msgs.append("duplicate: pop#%d resolved twice or never issued" % i)
                     pop_state[i] = o
                 break
+            if head[-1] == "full":
+                # the bounded backing store refused the element: legitimate only when it really is full, and then the
+                # operation must have no effect at all (nothing resolved; the item / the pop does not exist)
+                if w[0] in ("push", "pushthrow"):
+                    if item_cap is None or pend or n_items < item_cap:
+                        msgs.append("spurious: `%s` refused although the item store (capacity %s) holds %d items and pops %s wait"
+                                    % (op, item_cap, n_items, pend))
+                elif w[0] == "pop":
+                    if wait_cap is None or n_items > 0 or len(pend) < wait_cap:
+                        msgs.append("spurious: pop refused although %d items are queued and only pops %s wait (capacity %s)"
+                                    % (n_items, pend, wait_cap))
+                else:
+                    msgs.append("spurious: `%s` refused" % op)
+                if completions:
+                    msgs.append("spurious: a refused operation resolved %s" % completions)
+                continue
             if w[0] == "push":
                 pushed.append(len(pushed) if void else int(w[1]))
                 woke = head[1] == "woke=1"
@@ -787,6 +820,11 @@ class C09(Spec):
                   "interleavings are covered by the theorems (any interleaving of lock regions and resolutions is an op list); on the real "
                   "code they are exercised sequentially (futures and re-entrant coroutine consumers) and by a thread stress suite")
     assumptions = ["the queue is not destroyed while another thread is inside one of its methods",
+                   "configurations: Queue/CoroQueue = std_queue or single_item_queue (model: capacity none / some n; an operation that "
+                   "would over-fill a bounded store is refused without effect - it throws std::runtime_error on the real header); "
+                   "Lock = std::mutex, primitives::no_lock (sequential suite only: single-threaded use is its contract) or the harness's "
+                   "parking lock; single_item_queue<void> does not exist; single_item_queue::clear() does not compile when instantiated "
+                   "(`!_val.reset()` on void) and nothing in queue.h calls it",
                    "a consumer's receive order is the order of its pop() calls (a consumer that keeps several pops outstanding may see "
                    "their futures resolved in another order when different producers resolve them)",
                    "std::mutex gives mutual exclusion (each lock region is atomic)"]
